@@ -12,7 +12,7 @@ def run_script(sc, embedded=False):
     import usim
     from usim.py import Environment, Interrupt
     env = Environment()
-    trace = [{'e': 'sc', 'until': sc['until'], 'procs': sc['procs']}]
+    trace = [{'e': 'sc', 'until': sc['until'], 'procs': sc['procs'], 'defuse': bool(sc.get('defuse'))}]
     events = {1: env.event(), 2: env.event()}
     procs = {}
 
@@ -22,6 +22,9 @@ def run_script(sc, embedded=False):
 
     for eid, evt in events.items():
         evt.callbacks.append(lambda _e, eid=eid: trace.append({'e': 'cb', 'ev': eid, 't': now()}))
+    if sc.get('defuse'):
+        # the SimPy supervision idiom: a callback takes care of the failure of the event
+        events[1].callbacks.append(lambda evt: setattr(evt, 'defused', True))
 
     def val(v):
         if v is None:
@@ -29,7 +32,7 @@ def run_script(sc, embedded=False):
         if isinstance(v, int):
             return [v]
         try:
-            return sorted(x for x in v.values() if isinstance(x, int))      # ConditionValue
+            return sorted(x for x in list(v.values()) if isinstance(x, int))      # ConditionValue
         except Exception:
             return [0]
 
@@ -69,6 +72,12 @@ def run_script(sc, embedded=False):
                 elif kind == 'nest2':
                     target = (env.timeout(st[1], value=st[1] + 5) & env.timeout(st[2], value=st[2] + 5)) \
                         | env.timeout(st[3], value=st[3] + 5)
+                elif kind == 'dall':
+                    # the same event listed twice in one condition
+                    t1, t2 = env.timeout(st[1], value=st[1] + 5), env.timeout(st[2], value=st[2] + 5)
+                    target = env.all_of([t1, t2, t1])
+                elif kind == 'dwait':
+                    target = events[st[1]] & events[st[1]]
                 elif kind == 'proc':
                     target = procs[st[1]]
                 elif kind == 'native':
@@ -95,7 +104,7 @@ def run_script(sc, embedded=False):
             trace.append({'e': 'res', 'p': 9, 'i': 1, 'how': 'ok', 'v': val(got), 't': now()})
         except EvFail:
             trace.append({'e': 'res', 'p': 9, 'i': 1, 'how': 'exc', 'v': [], 't': now()})
-    waiters1 = embedded or any(st[0] == 'wait' and st[1] == 1 or st[0] == 'any' and st[2] == 1 for steps in sc['procs'] for st in steps)
+    waiters1 = embedded or any(st[0] in ('wait', 'dwait') and st[1] == 1 or st[0] == 'any' and st[2] == 1 for steps in sc['procs'] for st in steps)
     try:
         if embedded:
             # the environment runs inside a native simulation next to a native activity
@@ -118,7 +127,7 @@ def random_script(rng, np_=3, ns=3):
     """scripts beyond the enumerated bound: 3 processes x 3 steps, nested conditions, several interrupts"""
     def step(i, n):
         others = [k for k in range(1, n + 1) if k != i]
-        kinds = ['to', 'to', 'wait', 'succ', 'fail', 'all', 'any', 'nest', 'nest2', 'native']
+        kinds = ['to', 'to', 'wait', 'succ', 'fail', 'all', 'any', 'nest', 'nest2', 'native', 'dall', 'dwait']
         if others:
             kinds += ['proc', 'intr', 'intr']
         k = rng.choice(kinds)
@@ -133,6 +142,10 @@ def random_script(rng, np_=3, ns=3):
             return ['fail', 1]
         if k == 'all':
             return ['all', rng.choice([1, 2]), rng.choice([1, 2])]
+        if k == 'dall':
+            return ['dall', rng.choice([1, 2, 3]), rng.choice([1, 2, 3])]
+        if k == 'dwait':
+            return ['dwait', rng.choice([1, 2])]
         if k == 'any':
             return ['any', rng.choice([1, 2]), rng.choice([1, 2])]
         if k == 'nest':
@@ -146,4 +159,4 @@ def random_script(rng, np_=3, ns=3):
             return ['proc', rng.choice(others)]
         return ['intr', rng.choice(others), 40 + i]
     n = rng.choice([2, 3, 3])
-    return {'until': rng.choice([0, 0, 2, 11]), 'procs': [[step(i + 1, n) for _ in range(rng.randint(1, ns))] for i in range(n)]}
+    return {'until': rng.choice([0, 0, 2, 11]), 'defuse': rng.random() < 0.25, 'procs': [[step(i + 1, n) for _ in range(rng.randint(1, ns))] for i in range(n)]}
